@@ -83,7 +83,6 @@ package common
 
 //@ func (*Meta).Write
 //@   props C12 C06 C01 C14
-//@   requires metaof(p) != m
 //@   panics when m.root.root >= m.pgid || (m.freelist >= m.pgid && m.freelist != PgidNoFreelist)
 //@   ensures [slot] p.id == m.txid % 2
 //@   ensures [flag] p.flags == MetaPageFlag
